@@ -3,10 +3,14 @@ from . import c04
 
 RULE = ("TLC generates histories (-simulate over the construct/evaluate state machine): up to 3 of 6 candidate conditions "
         "(PINN / mean / periodic, static and non-static samplers on different point sets) that SHARE two user dictionaries, "
-        "constructed and evaluated in every interleaving, each evaluated up to twice; non-trivial = history with >= 2 conditions")
+        "constructed and evaluated in every interleaving, each evaluated up to twice; plus (CondExt) histories of up to 3 of 6 "
+        "DeepONet conditions sharing 2 networks and 3 function sets, evaluated with the Solver's iteration numbers (step number "
+        "or None), with the user fixing a branch input in between; non-trivial = history with >= 2 conditions")
 
 
 def run(ctx):
+    ctx.mc("MC_FuncSet", workers=2, note="training-time branch evaluation: every evaluation uses the current batch of its own function set (2 networks, 2 function sets, step numbers and None)")
+    ctx.mc("MC_FuncSet", "MC_FuncSet_skip", workers=2, expect_violation="OwnFunctions")
     c04.run(ctx, mode="hist")
     ctx.rule = RULE
     ctx.exhaustive = False
